@@ -53,8 +53,8 @@ MARKER_PROOF_TRUST = [
     "the tie to the code is the S-mark correspondence stream (parse/&/|/only/exclude results compared STRUCTURALLY, evaluate compared on environments), evaluated inside Coq with vm_compute",
     "the merge of two version-like atoms (python_version / python_full_version / platform_release: _merge_single_markers through the specifier algebra and from_specifier) is a PARAMETER `vmerge` "
     "of the model; the theorems assume `vmerge_sound` (a merged atom evaluates as the conjunction / disjunction of the two atoms); the stream S-vmerge-rows checks that hypothesis on every row the "
-    "implementation produced during the run; for two atoms of ONE variable the hypothesis is a theorem in the tokenised model (C11_merge over Model/Bridge.v, tied by the BMerge cases of S-bridge); "
-    "the python_version / python_full_version pair branch and `in` lists remain covered by the row check only",
+    "implementation produced during the run; in the tokenised model (Model/Bridge.v, tied by the BMerge / BMergePV / BNormPV cases of S-bridge) the hypothesis is a theorem: C11_merge for two atoms of ONE variable, "
+    "C11_normalize / C11_merge_pv for the python_version / python_full_version pair on consistent interpreters (operands with at most two meaningful segments); `in` lists and long python_version operands remain covered by the row check only",
     "Python set iteration order is the parameter `perm`; theorems hold for every permutation; fuel: theorems hold for every fuel (results `Raise Unfueled` excluded)",
     "environments: the theorems quantify over every model environment (menv: string variables, extras set, truth of each version-like atom); evaluate() of an atom is modelled by atom_eval and compared by MCEval cases",
 ]
@@ -271,7 +271,7 @@ def run_c11(ctx: Ctx):
     ctx.trusted_base = PARSE_TRUST + ["Model/Bridge.v is a hand-written model of MarkerExpression._get_specifier (comparison / ~= / wildcard operators), from_specifier (incl. the python_full_version zero padding) and of the version branch of _evaluate "
                                       "(= packaging's Specifier(op operand).contains(value) = clause_sem) over tokenised atoms; tied to the code by the S-bridge stream (specifier view compared structurally, evaluate() on an interpreter grid, from_specifier results)",
                                       "`in` / `not in` lists are outside the model (string containment; known finding pv-in-substring): direct oracle only"]
-    props_spec.proof_step(ctx, "Props/C11.v", ["C11_view", "C11_back", "C11_padding", "C11_merge"], extra_targets=["Model/Bridge.v", "Model/CorrParse.v", "Model/Corr.v"])
+    props_spec.proof_step(ctx, "Props/C11.v", ["C11_view", "C11_back", "C11_padding", "C11_merge", "C11_normalize", "C11_merge_pv"], extra_targets=["Model/Bridge.v", "Model/CorrParse.v", "Model/Corr.v"])
     if not any(b["kind"] == "translation" for b in ctx.broken):
         sbridge.stream_sbridge(ctx)
         sparse.stream_sparse(ctx, 120 if ctx.tier == "quick" else 1500)
